@@ -63,9 +63,7 @@ class EEMSRead(Command):
         fill_value = kwargs.get("MissingVal")
         data_type = kwargs.get("DataType", float)
         if fill_value is not None:
-            data = numpy.ma.array(
-                values, mask=False, dtype=data_type, fill_value=data_type(fill_value)
-            )
+            data = numpy.ma.array(values, mask=False, dtype=data_type)
             mask = numpy.ma.where(data == data_type(fill_value), True, False)
 
         data = numpy.ma.array(values, mask=False, dtype=data_type)
